@@ -118,6 +118,9 @@ def _assigned(stmts: list[ast.stmt]) -> set[str]:
 def _simple(e: ast.expr) -> bool:
     if isinstance(e, (ast.Name, ast.Constant)):
         return True
+    if isinstance(e, ast.Attribute) and isinstance(e.value, ast.Call) and isinstance(e.value.func, ast.Name) and e.value.func.id == 'super' \
+            and not e.value.args and not e.value.keywords:
+        return True       # super().m: a bound method of the same object, valid anywhere in a method of the same class
     if isinstance(e, ast.Attribute):
         return _simple(e.value)
     if isinstance(e, ast.Subscript):
